@@ -1,5 +1,5 @@
 (* Properties/C10.v — The Merkle-Patricia trie commits to exactly its content.
-   Only statements closed by `exact`, with Print Assumptions under each.
+   Only statements closed by `exact`; Print Assumptions once over the tuple of all of them at the end.
 
    Full-strength statement (properties.jsonl C10): for all key/value sets and all
    histories of update / delete / get / hash / commit / reopen / cache-limit
@@ -43,21 +43,18 @@ Local Open Scope N_scope.
 Theorem C10_inmemory_get : forall t d k,
   canon_trie t -> trie_get t d k = Ok (tmap t k, t).
 Proof. exact trie_get_spec. Qed.
-Print Assumptions C10_inmemory_get.
 
 (* TryUpdate: never fails, keeps the invariant, is the finite-map update *)
 Theorem C10_inmemory_update : forall (H : bytes -> bytes) t d k v, warm_trie H t -> v <> [] ->
   exists t', trie_update t d k v = Ok t' /\ warm_trie H t' /\ tgen t' = tgen t /\ tlimit t' = tlimit t /\
     forall k', wmap t' k' = if bytes_eqb k k' then Some v else wmap t k'.
 Proof. exact trie_update_warm. Qed.
-Print Assumptions C10_inmemory_update.
 
 (* TryDelete (and TryUpdate with an empty value): same, removing the key *)
 Theorem C10_inmemory_delete : forall (H : bytes -> bytes) t d k, warm_trie H t ->
   exists t', trie_delete t d k = Ok t' /\ warm_trie H t' /\ tgen t' = tgen t /\ tlimit t' = tlimit t /\
     forall k', wmap t' k' = if bytes_eqb k k' then None else wmap t k'.
 Proof. exact trie_delete_warm. Qed.
-Print Assumptions C10_inmemory_delete.
 
 (* Trie.Hash — with whatever hashes are cached from earlier Hash() calls — is the
    specification's root of the content, and keeps content and invariant *)
@@ -68,7 +65,6 @@ Theorem C10_inmemory_hash : forall H : bytes -> bytes,
     erase (troot t') = erase (troot t) /\ content_of (troot t') = content_of (troot t) /\
     tgen t' = tgen t /\ tlimit t' = tlimit t.
 Proof. exact trie_hash_warm. Qed.
-Print Assumptions C10_inmemory_hash.
 
 (* every history of update / delete / get / hash from the empty trie: all
    operations succeed, the final trie represents the finite map the history
@@ -81,7 +77,6 @@ Theorem C10_inmemory_history : forall H : bytes -> bytes,
     (forall k, tmap (strie s') k = fold_left op_map ops (fun _ => None) k) /\
     trace_ok H (fun _ => None) ops obl.
 Proof. exact plain_history_spec. Qed.
-Print Assumptions C10_inmemory_history.
 
 (* the root is a function of the content alone: two such histories (any order,
    any intermediate values, Hash() anywhere) that denote the same finite map end
@@ -95,7 +90,6 @@ Theorem C10_inmemory_root_depends_on_content_only : forall H : bytes -> bytes,
   exists r t1' t2', trie_hash H (strie s1) = Ok (r, t1') /\ trie_hash H (strie s2) = Ok (r, t2') /\
                     r = mpt_root_hex H (tcontent (strie s1)).
 Proof. exact plain_history_root_map_only. Qed.
-Print Assumptions C10_inmemory_root_depends_on_content_only.
 
 (* iteration lists exactly the content (values and byte keys, in the iterator's
    order); `hexmap t`: every content key is the nibble form of a byte key (true
@@ -106,7 +100,6 @@ Theorem C10_inmemory_iterate : forall H : bytes -> bytes,
   exists l t', trie_iterate H t d = Ok (l, t') /\ warm_trie H t' /\
     map snd l = map snd (tcontent t) /\ map (fun kv => keybytes_to_hex (fst kv)) l = map fst (tcontent t).
 Proof. exact trie_iterate_spec. Qed.
-Print Assumptions C10_inmemory_iterate.
 
 (* VerifyProof is sound for EVERY set of proof nodes (so for every altered
    proof): whatever it returns for key is the content's answer (Some v, or None
@@ -122,7 +115,6 @@ Theorem C10_verify_sound : forall H : bytes -> bytes,
     verify_proof (mpt_root_hex H (content_of root_node)) key (proof_db_of H nodes) = Ok v ->
     v = lookup (content_of root_node) (keybytes_to_hex key).
 Proof. exact TrieVerifyProofs.verify_sound_closed. Qed.
-Print Assumptions C10_verify_sound.
 
 (* Commit writes every node that is referenced by hash; trie.New on the returned
    root + TryGet on the lazily loaded trie (hash nodes resolved through the
@@ -144,7 +136,6 @@ Theorem C10_inmemory_commit_reopen : forall H : bytes -> bytes,
   exists t2, trie_new H r d' = Ok t2 /\
     forall k, exists t3, trie_get t2 d' k = Ok (lookup (content_of (troot t)) (keybytes_to_hex k), t3).
 Proof. exact commit_reopen. Qed.
-Print Assumptions C10_inmemory_commit_reopen.
 
 (* ... in terms of histories: updates/deletes, Commit, reopen: every TryGet on the
    reopened trie returns what the history's finite map says *)
@@ -159,7 +150,6 @@ Theorem C10_inmemory_history_commit_reopen : forall H : bytes -> bytes,
   exists t2, trie_new H r d' = Ok t2 /\
     forall k, exists t3, trie_get t2 d' k = Ok (map_ops (fun _ => None) ops k, t3).
 Proof. exact history_commit_reopen. Qed.
-Print Assumptions C10_inmemory_history_commit_reopen.
 
 (* completeness: the proof Prove produces for ANY key verifies against the root to
    the content's answer for that key — its value, or its absence — for every
@@ -174,7 +164,6 @@ Theorem C10_inmemory_prove_then_verify : forall H : bytes -> bytes,
     verify_proof (mpt_root_hex H (content_of (troot t))) k p
       = Ok (lookup (content_of (troot t)) (keybytes_to_hex k)).
 Proof. exact prove_verify_closed. Qed.
-Print Assumptions C10_inmemory_prove_then_verify.
 
 (* THE MAIN THEOREM.  The trie as the Go code holds it — partly unloaded to hash
    nodes whose encodings are in the node database, with cached hashes, dirty
@@ -210,7 +199,6 @@ Theorem C10_history : forall H : bytes -> bytes,
   forall ops, lazy_ok H init_state (fun _ => None) [] ops ->
   exists s' obl, run_ops H init_state ops = (s', obl) /\ lazy_trace H (fun _ => None) [] ops obl.
 Proof. exact lazy_history_empty. Qed.
-Print Assumptions C10_history.
 
 (* ... from any state satisfying the invariant (so histories compose), with the
    invariant re-established: the final trie represents the final map over a sound
@@ -223,14 +211,12 @@ Theorem C10_history_from : forall H : bytes -> bytes,
   exists s' obl, run_ops H s ops = (s', obl) /\ lazy_trace H mp sn ops obl /\
     exists mp' sn', inv H s' mp' sn'.
 Proof. exact lazy_history. Qed.
-Print Assumptions C10_history_from.
 
 (* the root observed by Hash/Commit is a function of the map alone: all canonical
    tries denoting the same finite map have the same specification root (full) *)
 Theorem C10_spec_root_of_map_unique : forall (H : bytes -> bytes) m1 m2 mp,
   denotes m1 mp -> denotes m2 mp -> mpt_root_hex H (content_of m1) = mpt_root_hex H (content_of m2).
 Proof. exact denotes_root_unique. Qed.
-Print Assumptions C10_spec_root_of_map_unique.
 
 (* the root COMMITS to the content: two canonical tries with the same root hold the
    same key/value map (collision freedom of H on encodings of canonical nodes) (full) *)
@@ -242,7 +228,6 @@ Theorem C10_root_injective : forall H : bytes -> bytes,
   mpt_root_hex H (content_of m1) = mpt_root_hex H (content_of m2) ->
   forall kb, lookup (content_of m1) (keybytes_to_hex kb) = lookup (content_of m2) (keybytes_to_hex kb).
 Proof. exact root_injective. Qed.
-Print Assumptions C10_root_injective.
 
 (* core/types/derive_sha.go DeriveSha as the code computes it (Import/DeriveShaCode.v:
    a throw-away trie, Update(rlp(uint i), item_i) in a loop — the Go loop reuses one
@@ -254,7 +239,6 @@ Theorem C10_derive_sha_is_spec_root : forall H : bytes -> bytes,
   forall items d, lenN items <= two64 -> Forall (fun x => x <> []) items ->
   derive_sha_code H d items = Ok (mpt_root H (indexed 0 items)).
 Proof. exact derive_sha_code_spec. Qed.
-Print Assumptions C10_derive_sha_is_spec_root.
 
 (* ... and DeriveSha is injective: two non-empty lists with the same root are equal
    (sizes below 4 GiB so that the RLP size premise is derived) (full) *)
@@ -267,14 +251,12 @@ Theorem C10_derive_sha_injective : forall H : bytes -> bytes,
   byte_content_size (indexed 0 items1) < 2 ^ 32 -> byte_content_size (indexed 0 items2) < 2 ^ 32 ->
   derive_sha_code H d items1 = Ok r -> derive_sha_code H d items2 = Ok r -> items1 = items2.
 Proof. exact derive_sha_injective. Qed.
-Print Assumptions C10_derive_sha_injective.
 
 (* trie.New on a root under which the database stores nothing (a root that was
    never committed) fails with MissingNodeError (full; also a case of C10_history) *)
 Theorem C10_reopen_uncommitted_root_missing : forall (H : bytes -> bytes) d r,
   db_get d (to_hash r) = None -> r <> zero_hash -> r <> empty_root H -> trie_new H r d = Missing.
 Proof. exact trie_new_missing. Qed.
-Print Assumptions C10_reopen_uncommitted_root_missing.
 
 (* trie/secure_trie.go (Trie/SecureModel.v): a SecureTrie history — TryUpdate / TryDelete
    / TryGet / GetKey / Hash / Commit / NewSecure on committed or unknown roots — behaves
@@ -293,7 +275,6 @@ Theorem C10_secure_history : forall H : bytes -> bytes,
   exists s' obl, sec_run H sec_init ops = (s', obl) /\
     sec_trace H K (fun _ => None) [] (fun _ => None) [] (fun _ => false) (fun _ => false) ops obl.
 Proof. exact secure_history. Qed.
-Print Assumptions C10_secure_history.
 
 (* GetKey returns the preimage: if the last TryUpdate/TryDelete on k was a TryUpdate,
    GetKey (H k) returns k, whether or not Commits happened in between (full) *)
@@ -307,7 +288,6 @@ Theorem C10_secure_getkey : forall H : bytes -> bytes,
   last_upd false ops k = true ->
   snd (sec_step H (fst (sec_run H sec_init ops)) (SGetKey (H k))) = OVal (Some k).
 Proof. exact getkey_spec. Qed.
-Print Assumptions C10_secure_getkey.
 
 (* trie/iterator.go as the state machine it is (Trie/IterModel.v: the stack of
    nodeIteratorState with the mutable child index, seek / peek / nextChild / push / pop /
@@ -329,14 +309,12 @@ Theorem C10_iterator_from_start : forall H : bytes -> bytes,
     bind (keyed [] (filter (fun kv => bytes_ge (fst kv) (removelast (keybytes_to_hex start))) (content_of m)))
          (fun l => Ok (l, t')).
 Proof. exact trie_iterate_from_lazy. Qed.
-Print Assumptions C10_iterator_from_start.
 
 (* the content of a canonical trie is listed in strictly increasing path order (so the
    filter above is a suffix and "each key once" holds) (full) *)
 Theorem C10_content_sorted : forall m, canon m = true ->
   Sorted.StronglySorted path_lt (map fst (content_of m)).
 Proof. exact content_sorted. Qed.
-Print Assumptions C10_content_sorted.
 
 (* trie/database.go, the two layers behind the node database (Trie/DbModel.v): memory
    layer with child references, disk store, Database.Commit(root) = commit through a write
@@ -345,7 +323,6 @@ Print Assumptions C10_content_sorted.
 Theorem C10_db_commit_limit_irrelevant : forall fuel l1 l2 m pre d root,
   tdb_commit fuel l1 m pre d root = tdb_commit fuel l2 m pre d root.
 Proof. exact tdb_commit_limit_irrelevant. Qed.
-Print Assumptions C10_db_commit_limit_irrelevant.
 
 (* ... in particular at the constant the code uses today (regenerated by the translator
    from aquadb.IdealBatchSize on every run) the commit equals the batch-free one-shot
@@ -355,7 +332,6 @@ Theorem C10_db_commit_at_ideal_batch_size : forall fuel m pre d root,
   bind (db_collect fuel m root) (fun ps =>
     Ok (db_uncache fuel m root, fold_left disk_put ps (fold_left disk_put pre d))).
 Proof. intros. apply tdb_commit_char. Qed.
-Print Assumptions C10_db_commit_at_ideal_batch_size.
 
 (* after Commit the disk holds every node reachable from the root through the child
    references, with its memory blob, and is unchanged elsewhere; and no reader can tell
@@ -365,12 +341,10 @@ Theorem C10_db_commit_disk : forall fuel limit m d root m' d',
   (forall h n, reach m root h -> mem_get m h = Some n -> disk_get d' h = Some (mn_blob n)) /\
   (forall k, ~ reach m root k -> disk_get d' k = disk_get d k).
 Proof. exact tdb_commit_disk. Qed.
-Print Assumptions C10_db_commit_disk.
 
 Theorem C10_db_commit_readers_unaffected : forall fuel limit m d root m' d',
   tdb_commit fuel limit m [] d root = Ok (m', d') -> forall h, tdb_node m' d' h = tdb_node m d h.
 Proof. exact tdb_commit_node. Qed.
-Print Assumptions C10_db_commit_readers_unaffected.
 
 (* reopening a committed root, over the database of the commit or any later one *)
 Theorem C10_reopen_step : forall H : bytes -> bytes,
@@ -380,14 +354,12 @@ Theorem C10_reopen_step : forall H : bytes -> bytes,
   mpt_root_hex H (content_of m) <> zero_hash -> mpt_root_hex H (content_of m) <> empty_root H ->
   exists t, trie_new H (mpt_root_hex H (content_of m)) d' = Ok t /\ TrieLazyTheorems.rep H d' mp t.
 Proof. exact reopen_step. Qed.
-Print Assumptions C10_reopen_step.
 
 (* the size premise (all_fits) is a derived fact for contents below 4 GiB (full) *)
 Theorem C10_sizes_fit : forall H : bytes -> bytes,
   (forall x, length (H x) = 32%nat) ->
   forall m, canon_root m = true -> content_size (content_of m) < 2 ^ 32 -> all_fits H m.
 Proof. exact fits_of_size. Qed.
-Print Assumptions C10_sizes_fit.
 
 (* the premise on H is met by the Gallina Keccak-256 the executable model uses *)
 Theorem C10_keccak_instance : forall ops, forallb plain_op ops = true ->
@@ -395,21 +367,18 @@ Theorem C10_keccak_instance : forall ops, forallb plain_op ops = true ->
     (forall k, tmap (strie s') k = fold_left op_map ops (fun _ => None) k) /\
     trace_ok keccak256 (fun _ => None) ops obl.
 Proof. exact (plain_history_spec keccak256 keccak256_length). Qed.
-Print Assumptions C10_keccak_instance.
 
 (* the specification root itself does not depend on the order in which the
    content is listed (full) *)
 Theorem C10_spec_root_order_independent : forall (H : bytes -> bytes) c c',
   NoDup (map fst c) -> Permutation c c' -> mpt_root H c = mpt_root H c'.
 Proof. exact mpt_root_perm. Qed.
-Print Assumptions C10_spec_root_order_independent.
 
 (* ... and depends only on the finite map a listing represents (full) *)
 Theorem C10_spec_root_extensional : forall (H : bytes -> bytes) J J',
   wf_content J -> wf_content J' -> (forall k, lookup J k = lookup J' k) ->
   mpt_root_hex H J = mpt_root_hex H J'.
 Proof. exact mpt_root_hex_ext. Qed.
-Print Assumptions C10_spec_root_extensional.
 
 (* decodeNode / VerifyProof never panic, whatever bytes they are given (full; true
    since the fix of compactToHex for the empty compact key — before it the node
@@ -417,12 +386,10 @@ Print Assumptions C10_spec_root_extensional.
 Theorem C10_decode_never_panics : forall hash buf gen,
   decode_node_top hash buf gen <> Panic /\ decode_node_top hash buf gen <> OutOfFuel.
 Proof. exact decode_top_total. Qed.
-Print Assumptions C10_decode_never_panics.
 
 Theorem C10_verify_never_panics : forall (H : bytes -> bytes) root key nodes,
   verify_proof root key (proof_db_of H nodes) <> Panic.
 Proof. exact verify_never_panics. Qed.
-Print Assumptions C10_verify_never_panics.
 
 (* "VerifyProof (root, k, Prove k) = the content's answer for k (value or absence)":
      forall H t d k p root, fresh_trie t -> trie_hash H t = Ok (root, _) -> trie_prove H t d k = Ok p ->
@@ -434,7 +401,6 @@ Theorem C10_empty_trie_absence_proof_refuted : forall (H : bytes -> bytes) d k,
                  trie_prove H empty_trie d k = Ok p /\ tmap empty_trie k = None /\
                  verify_proof root k p = Err.
 Proof. exact empty_trie_absence_not_provable. Qed.
-Print Assumptions C10_empty_trie_absence_proof_refuted.
 
 (* non-vacuity: a history with keys that are prefixes of one another, an
    overwrite and a delete ends in a trie that satisfies `fresh_trie`, and (with
@@ -555,3 +521,44 @@ Example C10_example_db_commit :
   | _ => False
   end.
 Proof. vm_compute. reflexivity. Qed.
+
+(* Print Assumptions, once for ALL theorems of this file: the per-theorem form costs ~0.6 s each
+   (20 s for the file: every call re-traverses the same 14 k-line development), which does not fit
+   the quick tier; the tuple below mentions every theorem, so any axiom used by any of them is
+   listed here.  Expected output: "Closed under the global context". *)
+Definition C10_all_theorems :=
+  (C10_inmemory_get,
+   C10_inmemory_update,
+   C10_inmemory_delete,
+   C10_inmemory_hash,
+   C10_inmemory_history,
+   C10_inmemory_root_depends_on_content_only,
+   C10_inmemory_iterate,
+   C10_verify_sound,
+   C10_inmemory_commit_reopen,
+   C10_inmemory_history_commit_reopen,
+   C10_inmemory_prove_then_verify,
+   C10_history,
+   C10_history_from,
+   C10_spec_root_of_map_unique,
+   C10_root_injective,
+   C10_derive_sha_is_spec_root,
+   C10_derive_sha_injective,
+   C10_reopen_uncommitted_root_missing,
+   C10_secure_history,
+   C10_secure_getkey,
+   C10_iterator_from_start,
+   C10_content_sorted,
+   C10_db_commit_limit_irrelevant,
+   C10_db_commit_at_ideal_batch_size,
+   C10_db_commit_disk,
+   C10_db_commit_readers_unaffected,
+   C10_reopen_step,
+   C10_sizes_fit,
+   C10_keccak_instance,
+   C10_spec_root_order_independent,
+   C10_spec_root_extensional,
+   C10_decode_never_panics,
+   C10_verify_never_panics,
+   C10_empty_trie_absence_proof_refuted).
+Print Assumptions C10_all_theorems.
